@@ -117,6 +117,7 @@ PROPS = {
     "C18": dict(gen=[dict(name="sched", module="MC_Sock.tla", cfg="Gen_Sock_t.cfg", cfg_q="Gen_Sock_q.cfg")],
                 mc=[dict(module="MC_Sock.tla", cfg="MC_Sock.cfg")],
                 drivers=[dict(name="sock", module="TraceRun.tla", args=["sock-replay", "--tier", "{tier}", "--in", "{sched}", "--out", "{out}", "--threads", "{threads}", "--seed", "{seed}"]),
+                         dict(name="tcpin", module="TraceRun.tla", args=["tcp-lines", "--tier", "{tier}", "--out", "{out}", "--seed", "{seed}"]),
                          dict(name="tcp", module="TraceRun.tla", args=["tcp-frame", "--tier", "{tier}", "--out", "{out}", "--seed", "{seed}"])],
                 count_traces="histories", tv_timeout=2400,
                 rule="TLC enumerates EVERY sequence of 3 (4) lines over {pause, start, stop, two port stores, malformed cmd, malformed u8/ioport} x EVERY partition into polling batches; each is fed to the real Cpu::run through a channel-backed Socket, the on_poll hook enqueueing exactly the scheduled batch before pop_messages; plus seeded random schedules with batches of more than 16 lines, upper-case hex, unknown / empty lines, pins on valid and invalid ports, stores to RAM; per poll: effects of the lines in order (memory diff, announcements consumed from the message stream one by one, port read-backs), pause / start / stop state; iterations must not occur while paused or after stop; framing: MC_Sock round trip, TCP stream event", assumptions=COMMON_ASSUME),
